@@ -233,4 +233,23 @@ theorem exec_local_err {F : Nat → Prop} (p : Prog α) (s s' : St) (hsim : Sim 
     simp only [exec] at h ⊢
     exact ih _ _ (hsim.emit e) hw h
 
+/-! ## a call seen with ONLY its operands mapped -/
+
+/-- `st` as ONE call is entitled to see it: readable = `R`, writable = `W`, mapped = `R ∪ W`; the
+contents are those of `st` -/
+def privRW (st : St) (R W : Nat → Bool) : St :=
+  { st with mapped := fun a => R a || W a, rd := R, wr := W }
+
+@[simp] theorem privRW_data (st : St) (R W : Nat → Bool) : (privRW st R W).data = st.data := rfl
+@[simp] theorem privRW_strays (st : St) (R W : Nat → Bool) : (privRW st R W).strays = st.strays := rfl
+
+/-- a guarded run from `privRW st R W` that neither faults nor strays: the total run from `st` (whatever
+`st` maps or permits) loads from `R`, stores to `W`, and is that run -/
+theorem within2_of_guarded (p : Prog α) (st : St) (R W : Nat → Bool) {r : α} {st' : St}
+    (h : exec p (privRW st R W) = .ok (r, st')) (hs : st'.strays = st.strays) :
+    Within2 (fun a => R a = true) (fun a => W a = true) p st ∧
+    (runT p st).1 = r ∧ (runT p st).2.data = st'.data := by
+  have hw := within2_of_clean p (privRW st R W) h hs
+  exact ⟨within2_congr p (privRW st R W) st (fun _ _ => rfl) hw, exec_eq_runT_aux p (privRW st R W) st rfl h⟩
+
 end SafeC
